@@ -112,6 +112,27 @@ def main(argv):
         for sid in ids or sorted(os.listdir(SEEDED)):
             verify(sid, props, tier, suite)
         return 0
+    if argv and argv[0] == "table":
+        print("| seed | property | what was changed | needs to manifest | valid | detected by (quick tier) |")
+        print("|---|---|---|---|---|---|")
+        for sid in sorted(os.listdir(SEEDED)):
+            mp = os.path.join(SEEDED, sid, "meta.json")
+            if not os.path.exists(mp):
+                continue
+            m = json.load(open(mp))
+            c = m.get("confirmed", {})
+            det = ", ".join(c.get("detected_by", [])) or ("**missed**" if c else "not run")
+            first = ""
+            for p_, r in c.get("checks", {}).items():
+                if r.get("first_bucket"):
+                    first = r["first_bucket"].split(" case=")[0].replace("bucket=", "")
+                    break
+            def cut(t, n):
+                t = " ".join(str(t).split())
+                return (t[:n] + "...") if len(t) > n else t
+            print(f"| {sid} | {m.get('property')} | {cut(m.get('summary', ''), 170)} | {cut(m.get('needs_to_manifest', ''), 150)} | "
+                  f"{'yes' if c.get('valid_seed') else 'NO'} | {det}{' (`' + first + '`)' if first else ''} |")
+        return 0
     print(__doc__)
     return 2
 
